@@ -3,10 +3,12 @@ package c09
 
 import (
 	"bytes"
+	"encoding/base64"
 	"encoding/json"
 	"fmt"
 	"math/bits"
 	"strconv"
+	"strings"
 	"sync"
 	"unicode/utf8"
 	"verif/internal/coop"
@@ -749,6 +751,101 @@ func FirstCalls() []fw.Call {
 	return out
 }
 
+// HashJSON: the JSON form of a hash. Every hash of a pool survives MarshalJSON / UnmarshalJSON (directly and
+// through encoding/json, alone and inside a struct); every single-position mutation of the text (each byte of
+// a menu in place of each byte, a deletion, an insertion, every truncation) is decoded into a destination
+// that already holds another hash: it is either refused with the destination untouched, or accepted with
+// exactly the hash that standard base64 gives for the text.
+func HashJSON(r *fw.Run) {
+	l := fw.NewLocal()
+	defer r.Merge(l)
+	var pool []tlog.Hash
+	pool = append(pool, tlog.Hash{}, tlog.RecordHash(nil), tlog.RecordHash([]byte("x")))
+	var ff, mix tlog.Hash
+	for i := range ff {
+		ff[i] = 0xff
+		mix[i] = byte(i*37 + 11)
+	}
+	pool = append(pool, ff, mix)
+	menu := []byte{'A', 'z', '0', '+', '/', '-', '_', '=', '"', ' ', '\\', '\n', 0, 0x80, 0xff, '!'}
+	r.Bounds["hash_json"] = fmt.Sprintf("%d hashes x (round trips + every single-position mutation of the 46-byte text over a menu of %d bytes, deletions, insertions, truncations), each decoded over a held hash", len(pool), len(menu))
+	held := tlog.RecordHash([]byte("held"))
+	decode := func(text []byte, via string) (tlog.Hash, error) {
+		dst := held
+		var err error
+		switch via {
+		case "direct":
+			err = dst.UnmarshalJSON(append([]byte(nil), text...))
+		case "json":
+			err = json.Unmarshal(text, &dst)
+		default:
+			w := struct {
+				A int
+				H tlog.Hash
+				B string
+			}{H: held}
+			err = json.Unmarshal([]byte(`{"A":1,"H":`+string(text)+`,"B":"b"}`), &w)
+			dst = w.H
+		}
+		return dst, err
+	}
+	check := func(text []byte, what string) {
+		// reference for the value of an accepted text: standard base64 of the 44 characters between the quotes
+		// (which texts besides the marshalled ones are accepted is not the property's business)
+		var want tlog.Hash
+		ok := false
+		if len(text) == 46 && text[0] == '"' && text[45] == '"' {
+			if b, err := base64.StdEncoding.DecodeString(string(text[1:45])); err == nil && len(b) == 32 {
+				copy(want[:], b)
+				ok = true
+			}
+		}
+		canonical := strings.HasSuffix(what, "as marshalled")
+		for _, via := range []string{"direct", "json", "struct"} {
+			l.States++
+			l.Execs++
+			l.Transitions++
+			got, err := decode(text, via)
+			switch {
+			case err != nil && got != held:
+				r.Violation("hash-json:damaged:"+what+":"+via, fmt.Sprintf("decoding the JSON text %q (%s, %s) failed with %v and left the destination changed: it held %v, now %v", text, what, via, err, held, got), caseT{Kind: "hash-json", Text: what})
+			case err == nil && ok && got != want:
+				r.Violation("hash-json:value:"+what+":"+via, fmt.Sprintf("decoding %q (%s, %s) gave %v, base64 says %v", text, what, via, got, want), caseT{Kind: "hash-json", Text: what})
+			case err != nil && canonical:
+				r.Violation("hash-json:refused:"+what+":"+via, fmt.Sprintf("decoding %q (%s, %s) failed: %v", text, what, via, err), caseT{Kind: "hash-json", Text: what})
+			case err == nil:
+				l.Nontrivial++
+			}
+		}
+	}
+	for hi, h := range pool {
+		text, err := h.MarshalJSON()
+		if err != nil || string(text) != `"`+base64.StdEncoding.EncodeToString(h[:])+`"` {
+			r.Violation(fmt.Sprintf("hash-json:marshal:%d", hi), fmt.Sprintf("MarshalJSON(%v) = %q, %v", h, text, err), caseT{Kind: "hash-json", Text: "marshal"})
+			continue
+		}
+		if via, _ := json.Marshal(h); string(via) != string(text) {
+			r.Violation(fmt.Sprintf("hash-json:marshal-via:%d", hi), fmt.Sprintf("json.Marshal(%v) = %q, MarshalJSON gives %q", h, via, text), caseT{Kind: "hash-json", Text: "marshal"})
+		}
+		check(text, fmt.Sprintf("hash %d as marshalled", hi))
+		for pos := 0; pos <= len(text); pos++ {
+			check(text[:pos], fmt.Sprintf("hash %d cut after %d bytes", hi, pos))
+			if pos < len(text) {
+				check(append(append([]byte(nil), text[:pos]...), text[pos+1:]...), fmt.Sprintf("hash %d without byte %d", hi, pos))
+			}
+			for _, b := range menu {
+				if pos < len(text) {
+					m := append([]byte(nil), text...)
+					m[pos] = b
+					check(m, fmt.Sprintf("hash %d with byte %d set to %#x", hi, pos, b))
+				}
+				ins := append(append(append([]byte(nil), text[:pos]...), b), text[pos:]...)
+				check(ins, fmt.Sprintf("hash %d with %#x inserted at %d", hi, b, pos))
+			}
+		}
+	}
+}
+
 func Run(r *fw.Run) {
 	defer fw.FirstCallOrders(r, r.ID, FirstCalls(), nil)
 	N := r.Pick(1500, 8000)
@@ -778,6 +875,7 @@ func Run(r *fw.Run) {
 	FailingAppends(r)
 
 	Overlap(r)
+	HashJSON(r)
 
 	// virtual huge logs: a log whose records are all identical has one hash per level, so a HashReader for
 	// a log of up to 2^62 records and the RFC 6962 tree hash of any size can be computed without storing it
@@ -998,6 +1096,8 @@ func Replay(r *fw.Run, raw json.RawMessage) {
 		aliasing(r)
 	case "overlap":
 		Overlap(r)
+	case "hash-json":
+		HashJSON(r)
 	case "huge":
 		HugeLogs(r)
 	case "failing":
